@@ -19,8 +19,8 @@ RULE = ("exhaustive: every single attribute (8 fg, 8 bg, 6 styles True/False) in
         "non-trivial = distinct cases that name at least one attribute, raise, or remove/replace something")
 ASSUMPTIONS = ["texts contain no ESC (a str argument of fmtstr would be parsed for escape sequences; C05/C17)",
                "keyword names are distinct (a repeated keyword is a TypeError at the call site, before parse_args runs)",
-               "copy_with_new_str is specified by the statement only for uniformly formatted strings; on other strings only "
-               "model = code is checked",
+               "copy_with_new_str is specified by the statement only for uniformly formatted strings (at least one "
+               "character, every character the same dict; empty runs do not count); on other strings only model = code is checked",
                "new_with_atts_removed is called with attribute names among the eight legal ones"]
 
 COLORS = wire.COLORS
@@ -244,7 +244,8 @@ def mk_cases(ctx):
             # runs made only of zero-WIDTH characters are still characters (combining acute, zero-width space)
             [("e", {"fg": 31}), ("\u0301", {"fg": 34})], [("\u200b", {"fg": 31, "bold": True}), ("a", {"bg": 44, "bold": True})],
             [("a", {"fg": 31, "underline": True}), ("\u0301\u200b", {"fg": 31}), ("b", {"fg": 31, "underline": True})],
-            [("\u0301", {"bg": 41}), ("", {"fg": 31})]]
+            [("\u0301", {"bg": 41}), ("", {"fg": 31})],
+            [("", {"bold": True}), ("a", {"fg": 31})], [("a", {"fg": 31}), ("", {"bold": True}), ("b", {"fg": 31})]]   # D32 shape
     for f in lays:
         cases.append(dict(op="shared", f=f))
         for a in PALETTE + [{"bold": False}, {"fg": 30, "bg": 47, "bold": True, "dark": False, "italic": True, "underline": False, "blink": True, "invert": False}]:
@@ -362,6 +363,19 @@ def override(cs, named):
     return [(ch, tuple(sorted(dict(dict(a), **named).items()))) for ch, a in cs]
 
 
+LEVEL_NOTE = ("PROVED in Lean for all inputs of the model: parse_args returns exactly the dict a declarative reading of the "
+              "specification denotes and raises ValueError - nothing else - on every invalid one (C14_sound_complete, "
+              "C14_error_kind: every `lower`, all positional and keyword arguments with distinct names); fmtstr/fmtfuncs = "
+              "parse then override (C14_fmtstr_denote, C14_fmtfunc_general); override / remove touch exactly the named "
+              "attributes on every character and nothing else (C14_apply, C14_override, C14_remove*), order independence for "
+              "disjoint attributes; copy_with_new_str on uniformly formatted strings; shared_atts reports exactly the entries "
+              "common to all characters (C14_shared, C14_shared_complete); the spelling equivalences and the shape of the "
+              "live fmtfuncs module by kernel evaluation over tables regenerated every run. TIE-ONLY: that the model is what "
+              "the code does (per-run correspondence), Python's str.lower (a parameter in Lean; the harness ships the live "
+              "values), from_str of a str argument (C05/C17). Trusted: Lean kernel + propext/Classical.choice/Quot.sound, the "
+              "hand-written model and `denote`, extract.py, the wire codec; CPython is modelled not verified")
+
+
 def _oracle(c):
     op = c["op"]
     if c.get("valid") is None and op == "parse":
@@ -406,7 +420,7 @@ def _oracle(c):
             return "new_with_atts_removed: got %r expected %r" % (cells(r), exp)
         return None
     if op == "cwns":
-        attsets = {tuple(sorted(a.items())) for _, a in c["f"]}
+        attsets = {a for _, a in before}      # per CHARACTER (empty runs are not formatting anything)
         if len(attsets) == 1:                 # uniformly formatted string: formatting kept, text swapped
             exp = [(ch, next(iter(attsets))) for ch in c["t"]]
             if cells(r) != exp or r.s != c["t"]:
